@@ -2,7 +2,7 @@
   NV.Driver.Cache — line protocol of the `cache` area (C06, history half of C07).
 
   One case line is one whole history:
-    cache <cacheOn 0|1> <bufLen> <maxAge> <maxTTL> <op> <op> …
+    cache <cacheOn 0|1|2> <bufLen> <maxAge> <maxTTL> <op> <op> …
   op tokens (fields separated by ','; byte strings lowercase hex, empty = "-"):
     D,u,<urlhex>,<payload>,<lat>,<out…>      DoH query, `DOH.URL = url`, no GetProfileURL
     D,p,<profilehex>,<payload>,<lat>,<out…>  DoH query, GetProfileURL as in run.go (prefix + profile)
@@ -40,7 +40,7 @@ def parseLm (s : String) : Option LmHdr :=
   else none
 
 def parseBool (s : String) : Option Bool :=
-  if s = "0" then some false else if s = "1" then some true else none
+  if s = "0" then some false else if s = "1" ∨ s = "2" then some true else none
 
 def parseDohOut : List String → Option DohOut
   | ["E"] => some .transportErr
